@@ -27,36 +27,121 @@ theorem allOk_item (cond : Cond) (kd : Kind) (hk : ∀ c p, kd ≠ .exc c p) (d 
   | none => simp [allOk]
   | falsy j => simp [allOk]
 
-theorem body_nil (cond : Cond) (ttl k n start findur : Nat) (t : TtlMap) (ok : Bool) (i : Nat) :
-    body cond ttl k n start findur [] t ok i =
+/-- what run `n` with body `steps` hands to consumer `cs` from item index `i` on: a prefix of `produced` -/
+def delivered (cs : Consumer) (n : Nat) : List (Kind × Nat) → Nat → List Res
+  | [], _ => []
+  | (.exc c p, _) :: _, i => if cs = .cancel i then [] else [Res.exc c p n]
+  | (kd, _) :: rest, i =>
+    if cs = .cancel i then [] else kd.res n i :: (if cs = .take i then [] else delivered cs n rest (i + 1))
+
+theorem body_cancel (cond : Cond) (ttl k n start findur : Nat) (cs : Consumer) (steps : List (Kind × Nat)) (t : TtlMap)
+    (ok : Bool) (i : Nat) (hc : cs = .cancel i) : body cond ttl k n start findur cs steps t ok i = (t, []) := by
+  cases steps with
+  | nil => simp [body, hc]
+  | cons st rest =>
+    obtain ⟨kd, d⟩ := st
+    cases kd <;> simp [body, hc]
+
+theorem body_nil (cond : Cond) (ttl k n start findur : Nat) (cs : Consumer) (t : TtlMap) (ok : Bool) (i : Nat)
+    (hc : cs ≠ .cancel i) :
+    body cond ttl k n start findur cs [] t ok i =
       (if ok && decide (i ≠ 0) && decide ((advance t findur).now - start < ttl) then
           (advance t findur).write (ckey k 0) (.int i) (some (ttl - ((advance t findur).now - start)))
         else advance t findur, []) := by
-  simp [body]
+  simp [body, hc]
 
-theorem body_exc (cond : Cond) (ttl k n start findur : Nat) (c p d : Nat) (rest : List (Kind × Nat)) (t : TtlMap)
-    (ok : Bool) (i : Nat) :
-    body cond ttl k n start findur ((.exc c p, d) :: rest) t ok i =
+theorem body_exc (cond : Cond) (ttl k n start findur : Nat) (cs : Consumer) (c p d : Nat) (rest : List (Kind × Nat))
+    (t : TtlMap) (ok : Bool) (i : Nat) (hc : cs ≠ .cancel i) :
+    body cond ttl k n start findur cs ((.exc c p, d) :: rest) t ok i =
       (if ok && excOk cond c p && decide ((advance t d).now - start < ttl) then
           ((advance t d).write (ckey k (i + 1)) (Res.exc c p n).enc (some ttl)).write (ckey k 0) (.int (i + 1 : Nat))
             (some (ttl - ((advance t d).now - start)))
         else advance t d, [Res.exc c p n]) := by
-  simp [body]
+  simp [body, hc]
 
-theorem body_item (cond : Cond) (ttl k n start findur : Nat) (kd : Kind) (hk : ∀ c p, kd ≠ .exc c p) (d : Nat)
-    (rest : List (Kind × Nat)) (t : TtlMap) (ok : Bool) (i : Nat) :
-    body cond ttl k n start findur ((kd, d) :: rest) t ok i =
-      ((body cond ttl k n start findur rest
+theorem body_take (cond : Cond) (ttl k n start findur : Nat) (cs : Consumer) (kd : Kind) (hk : ∀ c p, kd ≠ .exc c p)
+    (d : Nat) (rest : List (Kind × Nat)) (t : TtlMap) (ok : Bool) (i : Nat) (ht : cs = .take i) :
+    body cond ttl k n start findur cs ((kd, d) :: rest) t ok i = (advance t d, [kd.res n i]) := by
+  cases kd with
+  | exc c p => exact absurd rfl (hk c p)
+  | val => simp [body, ht]
+  | none => simp [body, ht]
+  | falsy j => simp [body, ht]
+
+theorem body_item (cond : Cond) (ttl k n start findur : Nat) (cs : Consumer) (kd : Kind) (hk : ∀ c p, kd ≠ .exc c p)
+    (d : Nat) (rest : List (Kind × Nat)) (t : TtlMap) (ok : Bool) (i : Nat) (hc : cs ≠ .cancel i) (ht : cs ≠ .take i) :
+    body cond ttl k n start findur cs ((kd, d) :: rest) t ok i =
+      ((body cond ttl k n start findur cs rest
           (if ok && itemOk cond kd then (advance t d).write (ckey k (i + 1)) (kd.res n i).enc (some ttl) else advance t d)
           (ok && itemOk cond kd) (i + 1)).1,
-       kd.res n i :: (body cond ttl k n start findur rest
+       kd.res n i :: (body cond ttl k n start findur cs rest
           (if ok && itemOk cond kd then (advance t d).write (ckey k (i + 1)) (kd.res n i).enc (some ttl) else advance t d)
           (ok && itemOk cond kd) (i + 1)).2) := by
   cases kd with
   | exc c p => exact absurd rfl (hk c p)
-  | val => simp [body]
-  | none => simp [body]
-  | falsy j => simp [body]
+  | val => simp [body, hc, ht]
+  | none => simp [body, hc, ht]
+  | falsy j => simp [body, hc, ht]
+
+theorem ending_cancel (cs : Consumer) (steps : List (Kind × Nat)) (i : Nat) (hc : cs = .cancel i) :
+    ending cs steps i = .cancelled := by
+  cases steps with
+  | nil => simp [ending, hc]
+  | cons st rest =>
+    obtain ⟨kd, d⟩ := st
+    cases kd <;> simp [ending, hc]
+
+theorem ending_nil (cs : Consumer) (i : Nat) (hc : cs ≠ .cancel i) : ending cs [] i = .completed := by
+  simp [ending, hc]
+
+theorem ending_exc (cs : Consumer) (c p d : Nat) (rest : List (Kind × Nat)) (i : Nat) (hc : cs ≠ .cancel i) :
+    ending cs ((.exc c p, d) :: rest) i = .raised := by
+  simp [ending, hc]
+
+theorem ending_take (cs : Consumer) (kd : Kind) (hk : ∀ c p, kd ≠ .exc c p) (d : Nat) (rest : List (Kind × Nat)) (i : Nat)
+    (ht : cs = .take i) : ending cs ((kd, d) :: rest) i = .abandoned := by
+  cases kd with
+  | exc c p => exact absurd rfl (hk c p)
+  | val => simp [ending, ht]
+  | none => simp [ending, ht]
+  | falsy j => simp [ending, ht]
+
+theorem ending_item (cs : Consumer) (kd : Kind) (hk : ∀ c p, kd ≠ .exc c p) (d : Nat) (rest : List (Kind × Nat)) (i : Nat)
+    (hc : cs ≠ .cancel i) (ht : cs ≠ .take i) : ending cs ((kd, d) :: rest) i = ending cs rest (i + 1) := by
+  cases kd with
+  | exc c p => exact absurd rfl (hk c p)
+  | val => simp [ending, hc, ht]
+  | none => simp [ending, hc, ht]
+  | falsy j => simp [ending, hc, ht]
+
+theorem delivered_cancel (cs : Consumer) (n : Nat) (steps : List (Kind × Nat)) (i : Nat) (hc : cs = .cancel i) :
+    delivered cs n steps i = [] := by
+  cases steps with
+  | nil => simp [delivered]
+  | cons st rest =>
+    obtain ⟨kd, d⟩ := st
+    cases kd <;> simp [delivered, hc]
+
+theorem delivered_exc (cs : Consumer) (n c p d : Nat) (rest : List (Kind × Nat)) (i : Nat) (hc : cs ≠ .cancel i) :
+    delivered cs n ((.exc c p, d) :: rest) i = [Res.exc c p n] := by
+  simp [delivered, hc]
+
+theorem delivered_take (cs : Consumer) (n : Nat) (kd : Kind) (hk : ∀ c p, kd ≠ .exc c p) (d : Nat) (rest : List (Kind × Nat))
+    (i : Nat) (ht : cs = .take i) : delivered cs n ((kd, d) :: rest) i = [kd.res n i] := by
+  cases kd with
+  | exc c p => exact absurd rfl (hk c p)
+  | val => simp [delivered, ht]
+  | none => simp [delivered, ht]
+  | falsy j => simp [delivered, ht]
+
+theorem delivered_item (cs : Consumer) (n : Nat) (kd : Kind) (hk : ∀ c p, kd ≠ .exc c p) (d : Nat) (rest : List (Kind × Nat))
+    (i : Nat) (hc : cs ≠ .cancel i) (ht : cs ≠ .take i) :
+    delivered cs n ((kd, d) :: rest) i = kd.res n i :: delivered cs n rest (i + 1) := by
+  cases kd with
+  | exc c p => exact absurd rfl (hk c p)
+  | val => simp [delivered, hc, ht]
+  | none => simp [delivered, hc, ht]
+  | falsy j => simp [delivered, hc, ht]
 
 theorem produced_item (n : Nat) (kd : Kind) (hk : ∀ c p, kd ≠ .exc c p) (d : Nat) (rest : List (Kind × Nat)) (i : Nat) :
     produced n ((kd, d) :: rest) i = kd.res n i :: produced n rest (i + 1) := by
@@ -80,18 +165,78 @@ theorem kind_cases (kd : Kind) : (∃ c p, kd = .exc c p) ∨ ∀ c p, kd ≠ .e
   | none => exact .inr (fun _ _ h => by cases h)
   | falsy j => exact .inr (fun _ _ h => by cases h)
 
-/-- the consumer receives exactly what the body produces, whatever the store and the condition do -/
-theorem body_outs (cond : Cond) (ttl k n start findur : Nat) (steps : List (Kind × Nat)) (t : TtlMap) (ok : Bool)
-    (i : Nat) : (body cond ttl k n start findur steps t ok i).2 = produced n steps i := by
+theorem consumer_cases (cs : Consumer) (i : Nat) : cs = .cancel i ∨ (cs ≠ .cancel i ∧ cs = .take i) ∨ (cs ≠ .cancel i ∧ cs ≠ .take i) := by
+  by_cases hc : cs = .cancel i
+  · exact .inl hc
+  · by_cases ht : cs = .take i
+    · exact .inr (.inl ⟨hc, ht⟩)
+    · exact .inr (.inr ⟨hc, ht⟩)
+
+/-- the consumer receives exactly what the body delivers to it, whatever the store and the condition do -/
+theorem body_outs (cond : Cond) (ttl k n start findur : Nat) (cs : Consumer) (steps : List (Kind × Nat)) (t : TtlMap) (ok : Bool)
+    (i : Nat) : (body cond ttl k n start findur cs steps t ok i).2 = delivered cs n steps i := by
   induction steps generalizing t ok i with
-  | nil => simp [body_nil, produced]
+  | nil =>
+    by_cases hc : cs = .cancel i
+    · rw [body_cancel _ _ _ _ _ _ _ _ _ _ _ hc]; simp [delivered]
+    · rw [body_nil _ _ _ _ _ _ _ _ _ _ hc]; simp [delivered]
+  | cons st rest ih =>
+    obtain ⟨kd, d⟩ := st
+    rcases consumer_cases cs i with hc | ⟨hc, ht⟩ | ⟨hc, ht⟩
+    · rw [body_cancel _ _ _ _ _ _ _ _ _ _ _ hc, delivered_cancel _ _ _ _ hc]
+    · rcases kind_cases kd with ⟨c, p, rfl⟩ | hk
+      · rw [body_exc _ _ _ _ _ _ _ _ _ _ _ _ _ _ hc, delivered_exc _ _ _ _ _ _ _ hc]
+      · rw [body_take _ _ _ _ _ _ _ _ hk _ _ _ _ _ ht, delivered_take _ _ _ hk _ _ _ ht]
+    · rcases kind_cases kd with ⟨c, p, rfl⟩ | hk
+      · rw [body_exc _ _ _ _ _ _ _ _ _ _ _ _ _ _ hc, delivered_exc _ _ _ _ _ _ _ hc]
+      · rw [body_item _ _ _ _ _ _ _ _ hk _ _ _ _ _ hc ht, delivered_item _ _ _ hk _ _ _ hc ht]
+        simp only
+        rw [ih]
+
+/-- a run that ended by itself delivered everything it produces -/
+theorem delivered_done (cs : Consumer) (n : Nat) (steps : List (Kind × Nat)) (i : Nat)
+    (h : (ending cs steps i).done = true) : delivered cs n steps i = produced n steps i := by
+  induction steps generalizing i with
+  | nil => simp [delivered, produced]
+  | cons st rest ih =>
+    obtain ⟨kd, d⟩ := st
+    rcases consumer_cases cs i with hc | ⟨hc, ht⟩ | ⟨hc, ht⟩
+    · rw [ending_cancel _ _ _ hc] at h; simp [Ending.done] at h
+    · rcases kind_cases kd with ⟨c, p, rfl⟩ | hk
+      · rw [delivered_exc _ _ _ _ _ _ _ hc]; simp [produced]
+      · rw [ending_take _ _ hk _ _ _ ht] at h; simp [Ending.done] at h
+    · rcases kind_cases kd with ⟨c, p, rfl⟩ | hk
+      · rw [delivered_exc _ _ _ _ _ _ _ hc]; simp [produced]
+      · rw [ending_item _ _ hk _ _ _ hc ht] at h
+        rw [delivered_item _ _ _ hk _ _ _ hc ht, produced_item _ _ hk, ih _ h]
+
+/-- a drained run always ends by itself -/
+theorem ending_drain_done (steps : List (Kind × Nat)) (i : Nat) : (ending .drain steps i).done = true := by
+  induction steps generalizing i with
+  | nil => rw [ending_nil _ _ (by simp)]; rfl
   | cons st rest ih =>
     obtain ⟨kd, d⟩ := st
     rcases kind_cases kd with ⟨c, p, rfl⟩ | hk
-    · simp [body_exc, produced]
-    · rw [body_item _ _ _ _ _ _ _ hk, produced_item _ _ hk]
-      simp only
-      rw [ih]
+    · rw [ending_exc _ _ _ _ _ _ (by simp)]; rfl
+    · rw [ending_item _ _ hk _ _ _ (by simp) (by simp)]; exact ih _
+
+/-- whatever the consumer does, what it receives is a prefix of what the run produces -/
+theorem delivered_prefix (cs : Consumer) (n : Nat) (steps : List (Kind × Nat)) (i : Nat) :
+    delivered cs n steps i = (produced n steps i).take (delivered cs n steps i).length := by
+  induction steps generalizing i with
+  | nil => simp [delivered, produced]
+  | cons st rest ih =>
+    obtain ⟨kd, d⟩ := st
+    rcases consumer_cases cs i with hc | ⟨hc, ht⟩ | ⟨hc, ht⟩
+    · rw [delivered_cancel _ _ _ _ hc]; simp
+    · rcases kind_cases kd with ⟨c, p, rfl⟩ | hk
+      · rw [delivered_exc _ _ _ _ _ _ _ hc]; simp [produced]
+      · rw [delivered_take _ _ _ hk _ _ _ ht, produced_item _ _ hk]; simp
+    · rcases kind_cases kd with ⟨c, p, rfl⟩ | hk
+      · rw [delivered_exc _ _ _ _ _ _ _ hc]; simp [produced]
+      · rw [delivered_item _ _ _ hk _ _ _ hc ht, produced_item _ _ hk]
+        simp only [List.length_cons, List.take_succ_cons]
+        rw [← ih]
 
 /-- only the last thing a run delivers can be an exception -/
 theorem produced_wf (n : Nat) (steps : List (Kind × Nat)) (i j : Nat) (r : Res)
@@ -144,31 +289,59 @@ theorem produced_exc_at (n : Nat) (steps : List (Kind × Nat)) (i j c p m : Nat)
         · exact hk c' p'
         · exact hpre st hmem c' p'
 
+/-- a stamped payload among what run `n` produces carries the stamp `n` -/
+theorem produced_val_stamp (n : Nat) (steps : List (Kind × Nat)) (i m j : Nat)
+    (h : Res.val m j ∈ produced n steps i) : n = m := by
+  induction steps generalizing i with
+  | nil => simp [produced] at h
+  | cons st rest ih =>
+    obtain ⟨kd, d⟩ := st
+    cases kd with
+    | exc c p => simp [produced] at h
+    | val =>
+      simp only [produced, Kind.res, List.mem_cons, Res.val.injEq] at h
+      rcases h with h | h
+      · exact h.1.symm
+      · exact ih _ h
+    | none =>
+      simp only [produced, Kind.res, List.mem_cons] at h
+      rcases h with h | h
+      · cases h
+      · exact ih _ h
+    | falsy f =>
+      simp only [produced, Kind.res, List.mem_cons] at h
+      rcases h with h | h
+      · cases h
+      · exact ih _ h
+
 /-- what the miss path does to the store -/
-structure BodyFacts (cond : Cond) (steps : List (Kind × Nat)) (ttl k start : Nat) (t : TtlMap) (ok : Bool) (i : Nat) (t' : TtlMap) (rs : List Res) : Prop where
+structure BodyFacts (cond : Cond) (cs : Consumer) (steps : List (Kind × Nat)) (ttl k start : Nat) (t : TtlMap) (ok : Bool) (i : Nat) (t' : TtlMap) (rs : List Res) : Prop where
   /-- only slot 0 (the marker) and the chunk slots from `i+1` on are written -/
   frame : ∀ q, (∀ j, (j = 0 ∨ i < j) → q ≠ ckey k j) → t'.m q = t.m q
   now_le : t.now ≤ t'.now
-  /-- the marker is untouched, or it now describes exactly this run and every chunk is in place -/
+  /-- the marker is untouched, or the run ended by itself, the marker now describes exactly this run and every chunk is in place -/
   marker : t'.m (ckey k 0) = t.m (ckey k 0) ∨
-    (ok = true ∧ allOk cond steps = true ∧ 0 < ttl ∧ t'.now < start + ttl ∧ i + rs.length ≠ 0 ∧
+    (ok = true ∧ (ending cs steps i).done = true ∧ allOk cond steps = true ∧ 0 < ttl ∧ t'.now < start + ttl ∧ i + rs.length ≠ 0 ∧
       t'.m (ckey k 0) = some ⟨.int ((i + rs.length : Nat) : Int), some (start + ttl)⟩ ∧
       ∀ j r, rs[j]? = some r → ∃ d, t'.m (ckey k (i + j + 1)) = some ⟨r.enc, some d⟩ ∧ start + ttl ≤ d)
 
-theorem body_facts (cond : Cond) (ttl k n start findur : Nat) (steps : List (Kind × Nat)) (t : TtlMap) (ok : Bool)
+theorem body_facts (cond : Cond) (ttl k n start findur : Nat) (cs : Consumer) (steps : List (Kind × Nat)) (t : TtlMap) (ok : Bool)
     (i : Nat) (hstart : start ≤ t.now) :
-    BodyFacts cond steps ttl k start t ok i (body cond ttl k n start findur steps t ok i).1
-      (body cond ttl k n start findur steps t ok i).2 := by
+    BodyFacts cond cs steps ttl k start t ok i (body cond ttl k n start findur cs steps t ok i).1
+      (body cond ttl k n start findur cs steps t ok i).2 := by
   induction steps generalizing t ok i with
   | nil =>
-    rw [body_nil]
+    by_cases hcc : cs = .cancel i
+    · rw [body_cancel _ _ _ _ _ _ _ _ _ _ _ hcc]
+      exact ⟨fun _ _ => rfl, Nat.le_refl _, .inl rfl⟩
+    rw [body_nil _ _ _ _ _ _ _ _ _ _ hcc]
     by_cases hc : (ok && decide (i ≠ 0) && decide ((advance t findur).now - start < ttl)) = true
     · simp only [hc, if_true]
       have hc' : (ok = true ∧ i ≠ 0) ∧ (advance t findur).now - start < ttl := by
         simp only [Bool.and_eq_true, decide_eq_true_eq] at hc; exact hc
       obtain ⟨⟨hok, hi⟩, hsp⟩ := hc'
       have hn : (advance t findur).now = t.now + findur := rfl
-      refine ⟨?_, by simp, .inr ⟨hok, rfl, by omega, by simp; omega, by simpa using hi, ?_, by simp⟩⟩
+      refine ⟨?_, by simp, .inr ⟨hok, by rw [ending_nil _ _ hcc]; rfl, rfl, by omega, by simp; omega, by simpa using hi, ?_, by simp⟩⟩
       · intro q hq
         rw [write_m_ne _ _ _ (hq 0 (.inl rfl))]; rfl
       · rw [write_m_pos _ _ _ (by omega)]
@@ -179,8 +352,11 @@ theorem body_facts (cond : Cond) (ttl k n start findur : Nat) (steps : List (Kin
       exact ⟨fun _ _ => rfl, by simp, .inl rfl⟩
   | cons st rest ih =>
     obtain ⟨kd, d⟩ := st
+    by_cases hcc : cs = .cancel i
+    · rw [body_cancel _ _ _ _ _ _ _ _ _ _ _ hcc]
+      exact ⟨fun _ _ => rfl, Nat.le_refl _, .inl rfl⟩
     rcases kind_cases kd with ⟨c, p, rfl⟩ | hk
-    · rw [body_exc]
+    · rw [body_exc _ _ _ _ _ _ _ _ _ _ _ _ _ _ hcc]
       by_cases hc : (ok && excOk cond c p && decide ((advance t d).now - start < ttl)) = true
       · simp only [hc, if_true]
         have hc' : (ok = true ∧ excOk cond c p = true) ∧ (advance t d).now - start < ttl := by
@@ -188,7 +364,7 @@ theorem body_facts (cond : Cond) (ttl k n start findur : Nat) (steps : List (Kin
         obtain ⟨⟨hok, hex⟩, hsp⟩ := hc'
         have hn : (advance t d).now = t.now + d := rfl
         have hpos : 0 < ttl := by omega
-        refine ⟨?_, by simp, .inr ⟨hok, by simpa [allOk] using hex, hpos, by simp; omega, by simp, ?_, ?_⟩⟩
+        refine ⟨?_, by simp, .inr ⟨hok, by rw [ending_exc _ _ _ _ _ _ hcc]; rfl, by simpa [allOk] using hex, hpos, by simp; omega, by simp, ?_, ?_⟩⟩
         · intro q hq
           rw [write_m_ne _ _ _ (hq 0 (.inl rfl)), write_m_ne _ _ _ (hq (i + 1) (.inr (by omega)))]; rfl
         · rw [write_m_pos _ _ _ (by omega)]
@@ -206,7 +382,11 @@ theorem body_facts (cond : Cond) (ttl k n start findur : Nat) (steps : List (Kin
             simp
       · simp only [hc, Bool.false_eq_true, if_false]
         exact ⟨fun _ _ => rfl, by simp, .inl rfl⟩
-    · rw [body_item _ _ _ _ _ _ _ hk]
+    · by_cases htt : cs = .take i
+      · -- the consumer closes the stream at this item: time has passed, nothing is written
+        rw [body_take _ _ _ _ _ _ _ _ hk _ _ _ _ _ htt]
+        exact ⟨fun _ _ => rfl, by simp, .inl rfl⟩
+      rw [body_item _ _ _ _ _ _ _ _ hk _ _ _ _ _ hcc htt]
       -- the store after this item
       generalize ht2 : (if (ok && itemOk cond kd) = true then
           (advance t d).write (ckey k (i + 1)) (kd.res n i).enc (some ttl) else advance t d) = t2
@@ -222,13 +402,14 @@ theorem body_facts (cond : Cond) (ttl k n start findur : Nat) (steps : List (Kin
       · intro q hq
         rw [ih'.frame q (fun j hj => hq j (by omega)), hm2 q (hq (i + 1) (.inr (by omega)))]
       · have := ih'.now_le
-        show t.now ≤ (body cond ttl k n start findur rest t2 (ok && itemOk cond kd) (i + 1)).1.now
+        show t.now ≤ (body cond ttl k n start findur cs rest t2 (ok && itemOk cond kd) (i + 1)).1.now
         omega
-      · rcases ih'.marker with hm | ⟨hok', hall, hpos, hend, hcnt, hmark, hch⟩
+      · rcases ih'.marker with hm | ⟨hok', hdone, hall, hpos, hend, hcnt, hmark, hch⟩
         · left; rw [hm, hm2 _ (ckey_ne_of_slot (by omega) k)]
         · right
           have hokk : ok = true ∧ itemOk cond kd = true := by simpa using hok'
-          refine ⟨hokk.1, by rw [allOk_item _ _ hk, hokk.2, hall]; rfl, hpos, hend, by simp, ?_, ?_⟩
+          refine ⟨hokk.1, by rw [ending_item _ _ hk _ _ _ hcc htt]; exact hdone,
+            by rw [allOk_item _ _ hk, hokk.2, hall]; rfl, hpos, hend, by simp, ?_, ?_⟩
           · rw [hmark]; simp only [List.length_cons]
             congr 3; omega
           · intro j r hj
@@ -246,17 +427,20 @@ theorem body_facts (cond : Cond) (ttl k n start findur : Nat) (steps : List (Kin
               obtain ⟨d', h1, h2⟩ := hch j' r hj
               exact ⟨d', by rw [← h1]; congr 2; omega, h2⟩
 
-/-- converse of `BodyFacts.marker`: a run whose every item the condition accepts, that delivered something and
-ended less than ttl after its start, has written its marker -/
-theorem body_written (cond : Cond) (ttl k n start findur : Nat) (steps : List (Kind × Nat)) (t : TtlMap) (ok : Bool)
-    (i : Nat) (hstart : start ≤ t.now) (hok : ok = true) (hall : allOk cond steps = true)
+/-- converse of `BodyFacts.marker`: a run that ended by itself, whose every item the condition accepts, that delivered
+something and ended less than ttl after its start, has written its marker -/
+theorem body_written (cond : Cond) (ttl k n start findur : Nat) (cs : Consumer) (steps : List (Kind × Nat)) (t : TtlMap) (ok : Bool)
+    (i : Nat) (hstart : start ≤ t.now) (hok : ok = true) (hdone : (ending cs steps i).done = true)
+    (hall : allOk cond steps = true)
     (hne : i + (produced n steps i).length ≠ 0)
-    (hfast : (body cond ttl k n start findur steps t ok i).1.now < start + ttl) :
-    (body cond ttl k n start findur steps t ok i).1.m (ckey k 0) =
+    (hfast : (body cond ttl k n start findur cs steps t ok i).1.now < start + ttl) :
+    (body cond ttl k n start findur cs steps t ok i).1.m (ckey k 0) =
       some ⟨.int ((i + (produced n steps i).length : Nat) : Int), some (start + ttl)⟩ := by
   induction steps generalizing t ok i with
   | nil =>
-    rw [body_nil] at hfast ⊢
+    have hcc : cs ≠ .cancel i := by
+      intro h; rw [ending_cancel _ _ _ h] at hdone; simp [Ending.done] at hdone
+    rw [body_nil _ _ _ _ _ _ _ _ _ _ hcc] at hfast ⊢
     have hn : (advance t findur).now = t.now + findur := rfl
     have hnow : (if (ok && decide (i ≠ 0) && decide ((advance t findur).now - start < ttl)) = true then
           (advance t findur).write (ckey k 0) (.int i) (some (ttl - ((advance t findur).now - start)))
@@ -272,8 +456,10 @@ theorem body_written (cond : Cond) (ttl k n start findur : Nat) (steps : List (K
     simp only [Option.some.injEq]; omega
   | cons st rest ih =>
     obtain ⟨kd, d⟩ := st
+    have hcc : cs ≠ .cancel i := by
+      intro h; rw [ending_cancel _ _ _ h] at hdone; simp [Ending.done] at hdone
     rcases kind_cases kd with ⟨c, p, rfl⟩ | hk
-    · rw [body_exc] at hfast ⊢
+    · rw [body_exc _ _ _ _ _ _ _ _ _ _ _ _ _ _ hcc] at hfast ⊢
       have hn : (advance t d).now = t.now + d := rfl
       have hnow : (if (ok && excOk cond c p && decide ((advance t d).now - start < ttl)) = true then
             ((advance t d).write (ckey k (i + 1)) (Res.exc c p n).enc (some ttl)).write (ckey k 0) (.int (i + 1 : Nat))
@@ -289,18 +475,21 @@ theorem body_written (cond : Cond) (ttl k n start findur : Nat) (steps : List (K
       simp only [write_now]
       congr 2
       simp only [Option.some.injEq]; omega
-    · rw [body_item _ _ _ _ _ _ _ hk] at hfast ⊢
+    · have htt : cs ≠ .take i := by
+        intro h; rw [ending_take _ _ hk _ _ _ h] at hdone; simp [Ending.done] at hdone
+      rw [ending_item _ _ hk _ _ _ hcc htt] at hdone
+      rw [body_item _ _ _ _ _ _ _ _ hk _ _ _ _ _ hcc htt] at hfast ⊢
       rw [allOk_item _ _ hk] at hall
       have hio : itemOk cond kd = true ∧ allOk cond rest = true := by simpa using hall
       have hok' : (ok && itemOk cond kd) = true := by simp [hok, hio.1]
       simp only [hok', if_true] at hfast ⊢
       rw [produced_item _ _ hk, List.length_cons]
       have := ih ((advance t d).write (ckey k (i + 1)) (kd.res n i).enc (some ttl)) true (i + 1)
-        (by simp; omega) rfl hio.2 (by omega) hfast
+        (by simp; omega) rfl hdone hio.2 (by omega) hfast
       rw [this]
       congr 3; omega
 
-/-- marker entry `e` of key `k` describes the logged run `r`, all of whose chunks are in the store -/
+/-- marker entry `e` of key `k` describes the logged run `r`, which ended by itself and all of whose chunks are in the store -/
 structure Cached (cfg : Cfg) (t : TtlMap) (k : Nat) (e : Entry) (r : Run) : Prop where
   key : r.key = k
   val : e.val = .int (r.outs.length : Nat)
@@ -309,19 +498,29 @@ structure Cached (cfg : Cfg) (t : TtlMap) (k : Nat) (e : Entry) (r : Run) : Prop
   chunks : ∀ j x, r.outs[j]? = some x → ∃ d, t.m (ckey k (j + 1)) = some ⟨x.enc, some d⟩ ∧ r.start + cfg.ttl k ≤ d
   wf : ∀ j x, r.outs[j]? = some x → j + 1 < r.outs.length → x.isExc = false
   intime : r.fin < r.start + cfg.ttl k
+  done : r.ending.done = true
 
 structure Inv (cfg : Cfg) (script : Nat → IBeh) (s : St) : Prop where
   cached : ∀ k e, s.store.m (ckey k 0) = some e → e.live s.store.now = true →
     ∃ n r, s.runs[n]? = some r ∧ Cached cfg s.store k e r ∧ allOk cfg.cond (script n).steps = true
-  /-- every complete, accepted run that took less than its ttl and is younger than its ttl is what the marker shows -/
-  latest : ∀ n r, s.runs[n]? = some r → allOk cfg.cond (script n).steps = true → r.outs ≠ [] →
+  /-- every accepted run that ended by itself, took less than its ttl and is younger than its ttl is what the marker shows -/
+  latest : ∀ n r, s.runs[n]? = some r → r.ending.done = true → allOk cfg.cond (script n).steps = true → r.outs ≠ [] →
     r.fin < r.start + cfg.ttl r.key → s.store.now < r.start + cfg.ttl r.key →
     s.store.m (ckey r.key 0) = some ⟨.int (r.outs.length : Nat), some (r.start + cfg.ttl r.key)⟩
   past : ∀ r ∈ s.runs, r.start ≤ s.store.now
-  stamped : ∀ n r, s.runs[n]? = some r → r.outs = produced n (script n).steps 0
+  /-- the log is faithful: what the consumer received and how the run ended are what the script and the consumer determine -/
+  stamped : ∀ n r, s.runs[n]? = some r →
+    r.outs = delivered r.cons n (script n).steps 0 ∧ r.ending = ending r.cons (script n).steps 0
 
 theorem inv_init (cfg : Cfg) (script : Nat → IBeh) : Inv cfg script St.init :=
   ⟨by simp [St.init, TtlMap.init], by simp [St.init], by simp [St.init], by simp [St.init]⟩
+
+/-- a logged run that ended by itself delivered the complete sequence its body produces -/
+theorem Inv.complete {cfg : Cfg} {script : Nat → IBeh} {s : St} (inv : Inv cfg script s) (n : Nat) (r : Run)
+    (hr : s.runs[n]? = some r) (hd : r.ending.done = true) : r.outs = produced n (script n).steps 0 := by
+  obtain ⟨ho, he⟩ := inv.stamped n r hr
+  rw [ho]
+  exact delivered_done _ _ _ _ (he ▸ hd)
 
 theorem markerCount_cached {cfg : Cfg} {t : TtlMap} {k : Nat} {e : Entry} {r : Run} (h : Cached cfg t k e r) :
     markerCount (some e) = r.outs.length := by
@@ -331,38 +530,38 @@ theorem markerCount_cached {cfg : Cfg} {t : TtlMap} {k : Nat} {e : Entry} {r : R
   subst this
   rfl
 
-/-- the state after a miss on key `k` -/
-def missState (cfg : Cfg) (script : Nat → IBeh) (s : St) (k : Nat) : St :=
+/-- the state after a miss on key `k` read by consumer `cs` -/
+def missState (cfg : Cfg) (script : Nat → IBeh) (s : St) (k : Nat) (cs : Consumer) : St :=
   let b := script s.runs.length
-  let res := body cfg.cond (cfg.ttl k) k s.runs.length s.store.now b.findur b.steps s.store true 0
-  { store := res.1, runs := s.runs ++ [⟨k, s.store.now, res.2, res.1.now⟩] }
+  let res := body cfg.cond (cfg.ttl k) k s.runs.length s.store.now b.findur cs b.steps s.store true 0
+  { store := res.1, runs := s.runs ++ [⟨k, s.store.now, res.2, res.1.now, cs, ending cs b.steps 0⟩] }
 
-theorem step_iter_miss (cfg : Cfg) (script : Nat → IBeh) (s : St) (k : Nat)
+theorem step_iter_miss (cfg : Cfg) (script : Nat → IBeh) (s : St) (k : Nat) (cs : Consumer)
     (h : markerCount (s.store.find (ckey k 0)) = 0) :
-    step cfg script s (.iter k) =
-      (missState cfg script s k, .got (produced s.runs.length (script s.runs.length).steps 0) false) := by
+    step cfg script s (.iter k cs) =
+      (missState cfg script s k cs, .got (delivered cs s.runs.length (script s.runs.length).steps 0) false) := by
   simp only [step, h, ne_eq, not_true_eq_false, if_false, missState]
-  rw [← body_outs cfg.cond (cfg.ttl k) k s.runs.length s.store.now (script s.runs.length).findur
+  rw [← body_outs cfg.cond (cfg.ttl k) k s.runs.length s.store.now (script s.runs.length).findur cs
     (script s.runs.length).steps s.store true 0]
 
-theorem step_iter_hit (cfg : Cfg) (script : Nat → IBeh) (s : St) (k : Nat)
+theorem step_iter_hit (cfg : Cfg) (script : Nat → IBeh) (s : St) (k : Nat) (cs : Consumer)
     (h : markerCount (s.store.find (ckey k 0)) ≠ 0) :
-    step cfg script s (.iter k) =
-      (s, .got (replay s.store k (markerCount (s.store.find (ckey k 0))) 0) true) := by
+    step cfg script s (.iter k cs) =
+      (s, .got (cs.view (replay s.store k (markerCount (s.store.find (ckey k 0))) 0)) true) := by
   simp [step, h]
 
-theorem inv_miss {cfg : Cfg} {script : Nat → IBeh} {s : St} (inv : Inv cfg script s) (k : Nat)
-    (hmiss : markerCount (s.store.find (ckey k 0)) = 0) : Inv cfg script (missState cfg script s k) := by
-  have bf := body_facts cfg.cond (cfg.ttl k) k s.runs.length s.store.now (script s.runs.length).findur
+theorem inv_miss {cfg : Cfg} {script : Nat → IBeh} {s : St} (inv : Inv cfg script s) (k : Nat) (cs : Consumer)
+    (hmiss : markerCount (s.store.find (ckey k 0)) = 0) : Inv cfg script (missState cfg script s k cs) := by
+  have bf := body_facts cfg.cond (cfg.ttl k) k s.runs.length s.store.now (script s.runs.length).findur cs
     (script s.runs.length).steps s.store true 0 (Nat.le_refl _)
-  have bo := body_outs cfg.cond (cfg.ttl k) k s.runs.length s.store.now (script s.runs.length).findur
+  have bo := body_outs cfg.cond (cfg.ttl k) k s.runs.length s.store.now (script s.runs.length).findur cs
     (script s.runs.length).steps s.store true 0
-  have bw := body_written cfg.cond (cfg.ttl k) k s.runs.length s.store.now (script s.runs.length).findur
+  have bw := body_written cfg.cond (cfg.ttl k) k s.runs.length s.store.now (script s.runs.length).findur cs
     (script s.runs.length).steps s.store true 0 (Nat.le_refl _) rfl
-  rw [← bo] at bw
-  generalize hres : body cfg.cond (cfg.ttl k) k s.runs.length s.store.now (script s.runs.length).findur
+  generalize hres : body cfg.cond (cfg.ttl k) k s.runs.length s.store.now (script s.runs.length).findur cs
     (script s.runs.length).steps s.store true 0 = res at bf bo bw
-  have hst : missState cfg script s k = { store := res.1, runs := s.runs ++ [⟨k, s.store.now, res.2, res.1.now⟩] } := by
+  have hst : missState cfg script s k cs = { store := res.1, runs := s.runs ++
+      [⟨k, s.store.now, res.2, res.1.now, cs, ending cs (script s.runs.length).steps 0⟩] } := by
     simp only [missState, hres]
   rw [hst]
   refine ⟨?_, ?_, ?_, ?_⟩
@@ -370,7 +569,7 @@ theorem inv_miss {cfg : Cfg} {script : Nat → IBeh} {s : St} (inv : Inv cfg scr
     simp only at he hl
     by_cases hk : k' = k
     · subst hk
-      rcases bf.marker with hm | ⟨_, hall, hpos, hend, hcnt, hmark, hch⟩
+      rcases bf.marker with hm | ⟨_, hdone, hall, hpos, hend, hcnt, hmark, hch⟩
       · -- marker untouched: it was not live before, so it is not live now
         rw [hm] at he
         have hl0 : e.live s.store.now = true := live_mono bf.now_le hl
@@ -381,14 +580,16 @@ theorem inv_miss {cfg : Cfg} {script : Nat → IBeh} {s : St} (inv : Inv cfg scr
       · rw [hmark] at he
         simp only [Option.some.injEq] at he
         subst he
-        refine ⟨s.runs.length, ⟨k', s.store.now, res.2, res.1.now⟩, by simp, ⟨rfl, ?_, ?_, rfl, ?_, ?_, hend⟩, hall⟩
+        refine ⟨s.runs.length, ⟨k', s.store.now, res.2, res.1.now, cs, ending cs (script s.runs.length).steps 0⟩, by simp,
+          ⟨rfl, ?_, ?_, rfl, ?_, ?_, hend, hdone⟩, hall⟩
         · simp
         · simpa using hcnt
         · intro j x hj
           have := hch j x hj
           simpa using this
         · intro j x hj hlt
-          rw [bo] at hj hlt
+          simp only at hj hlt
+          rw [bo, delivered_done _ _ _ _ hdone] at hj hlt
           exact produced_wf _ _ _ _ _ hj hlt
     · -- another key: nothing of it was touched
       have hfr : ∀ j, res.1.m (ckey k' j) = s.store.m (ckey k' j) :=
@@ -397,14 +598,14 @@ theorem inv_miss {cfg : Cfg} {script : Nat → IBeh} {s : St} (inv : Inv cfg scr
       obtain ⟨n, r, hr, hc, hall⟩ := inv.cached k' e he (live_mono bf.now_le hl)
       have hn : n < s.runs.length := (List.getElem?_eq_some_iff.mp hr).1
       exact ⟨n, r, by rw [List.getElem?_append_left hn]; exact hr,
-        ⟨hc.key, hc.val, hc.ne, hc.dl, fun j x hj => by rw [hfr]; exact hc.chunks j x hj, hc.wf, hc.intime⟩, hall⟩
+        ⟨hc.key, hc.val, hc.ne, hc.dl, fun j x hj => by rw [hfr]; exact hc.chunks j x hj, hc.wf, hc.intime, hc.done⟩, hall⟩
   · -- latest
-    intro n r hr hall hne hfast hfresh
+    intro n r hr hdone hall hne hfast hfresh
     simp only at hr hfresh ⊢
     by_cases hn : n < s.runs.length
     · rw [List.getElem?_append_left hn] at hr
       have hfresh0 : s.store.now < r.start + cfg.ttl r.key := by have := bf.now_le; omega
-      have hm := inv.latest n r hr hall hne hfast hfresh0
+      have hm := inv.latest n r hr hdone hall hne hfast hfresh0
       by_cases hk : r.key = k
       · -- an older cached run of the same key that is still fresh contradicts the miss
         have hf : s.store.find (ckey k 0) = some ⟨.int (r.outs.length : Nat), some (r.start + cfg.ttl r.key)⟩ := by
@@ -420,8 +621,11 @@ theorem inv_miss {cfg : Cfg} {script : Nat → IBeh} {s : St} (inv : Inv cfg scr
         have : n = s.runs.length := by omega
         subst this
         simp at hr; subst hr
-        simp only at hne hfast ⊢
-        have := bw hall (by simpa using hne) hfast
+        simp only at hne hfast hdone ⊢
+        have hprod : res.2 = produced s.runs.length (script s.runs.length).steps 0 := by
+          rw [bo]; exact delivered_done _ _ _ _ hdone
+        have := bw hdone hall (by rw [← hprod]; simpa using hne) hfast
+        rw [hprod]
         simpa using this
       | succ m => simp [hd] at hr
   · intro r hr
@@ -439,7 +643,7 @@ theorem inv_miss {cfg : Cfg} {script : Nat → IBeh} {s : St} (inv : Inv cfg scr
       | zero =>
         have : n = s.runs.length := by omega
         subst this
-        simp at hr; subst hr; exact bo
+        simp at hr; subst hr; exact ⟨bo, rfl⟩
       | succ m => simp [hd] at hr
 
 theorem inv_step {cfg : Cfg} {script : Nat → IBeh} {s : St} (inv : Inv cfg script s) (op : Op) :
@@ -449,20 +653,39 @@ theorem inv_step {cfg : Cfg} {script : Nat → IBeh} {s : St} (inv : Inv cfg scr
     refine ⟨?_, ?_, ?_, inv.stamped⟩
     · intro k e he hl
       obtain ⟨n, r, hr, hc, hall⟩ := inv.cached k e he (live_mono (Nat.le_add_right _ dt) hl)
-      exact ⟨n, r, hr, ⟨hc.key, hc.val, hc.ne, hc.dl, hc.chunks, hc.wf, hc.intime⟩, hall⟩
-    · intro n r hr hall hne hfast hfresh
-      exact inv.latest n r hr hall hne hfast (by simp [step] at hfresh; omega)
+      exact ⟨n, r, hr, ⟨hc.key, hc.val, hc.ne, hc.dl, hc.chunks, hc.wf, hc.intime, hc.done⟩, hall⟩
+    · intro n r hr hdone hall hne hfast hfresh
+      exact inv.latest n r hr hdone hall hne hfast (by simp [step] at hfresh; omega)
     · intro r hr; have := inv.past r hr; simp [step]; omega
-  | iter k =>
+  | iter k cs =>
     by_cases h : markerCount (s.store.find (ckey k 0)) = 0
-    · rw [step_iter_miss cfg script s k h]; exact inv_miss inv k h
-    · rw [step_iter_hit cfg script s k h]; exact inv
+    · rw [step_iter_miss cfg script s k cs h]; exact inv_miss inv k cs h
+    · rw [step_iter_hit cfg script s k cs h]; exact inv
 
 theorem inv_run {cfg : Cfg} {script : Nat → IBeh} {s : St} (inv : Inv cfg script s) (ops : List Op) :
     Inv cfg script (run cfg script s ops).1 := by
   induction ops generalizing s with
   | nil => exact inv
   | cons op ops ih => simp only [run]; exact ih (inv_step inv op)
+
+/-- a run that did not end by itself (abandoned or cancelled) writes at most chunk slots of its own key: every marker
+and everything else in the store is exactly as before -/
+theorem miss_interrupted (cfg : Cfg) (script : Nat → IBeh) (s : St) (k : Nat) (cs : Consumer)
+    (hint : (ending cs (script s.runs.length).steps 0).done = false) (q : Nat) (hq : ∀ j, q ≠ ckey k (j + 1)) :
+    (missState cfg script s k cs).store.m q = s.store.m q := by
+  have bf := body_facts cfg.cond (cfg.ttl k) k s.runs.length s.store.now (script s.runs.length).findur cs
+    (script s.runs.length).steps s.store true 0 (Nat.le_refl _)
+  simp only [missState]
+  by_cases h0 : q = ckey k 0
+  · subst h0
+    rcases bf.marker with hm | ⟨_, hdone, _⟩
+    · exact hm
+    · rw [hint] at hdone; exact absurd hdone (by simp)
+  · refine bf.frame q (fun j hj => ?_)
+    rcases hj with rfl | hj
+    · exact h0
+    · obtain ⟨j', rfl⟩ : ∃ j', j = j' + 1 := ⟨j - 1, by omega⟩
+      exact hq j'
 
 /-- reading back a cached run: while the marker is live every chunk is live, and the read stops only
 at the end of the run (an exception can only be its last element) -/
